@@ -208,6 +208,7 @@ let run_bdd (lines : string list) =
           | None -> (* unparsable register argument: same as a dead register *)
             if is_reg then HNot (nat_of_int 1_000_000, false) else HSize (nat_of_int 1_000_000, false) in
         incr evals;
+        let old_rs = snd !mr in
         match step_cfg big_fuel !mr op with
         | None -> print_endline "panic full"; raise Exit
         | Some ((m', rs'), o) ->
@@ -230,7 +231,9 @@ let run_bdd (lines : string list) =
            | ODot recs -> print_endline ("q " ^ String.concat " ; " (dot_lines recs))
            | OGc ->
              let dead = List.fold_left (fun acc o -> match o with None -> acc + 1 | Some _ -> acc) 0 rs' in
-             Printf.printf "gc %d %d %d\n" (int_of_n tb.real_size) (int_of_n tb.last_index) dead)
+             let newly = List.filter_map (fun x -> x)
+                 (List.mapi (fun j (a, b) -> match a, b with Some _, None -> Some (string_of_int j) | _ -> None) (List.combine old_rs rs')) in
+             Printf.printf "gc %d %d %d d=%s\n" (int_of_n tb.real_size) (int_of_n tb.last_index) dead (String.concat "," newly))
       end) lines
   with Exit -> ());
   ignore !evals; print_endline "end"
